@@ -148,6 +148,31 @@ Print Assumptions C16_deferred_cache_refuted.
 Theorem C16_deferred_cache_fixed : P_b_blocks b_deferred (model_trace_blocks cfg_fixed b_deferred) = true.
 Proof. exact deferred_fixed. Qed.
 
+(** why [C16_cascade_partial] stays partial: on the code as it is the full statement - "... and this persists until an
+    approved activation" - is FALSE.  Witness (reproduced on the real executor, corpus/C16_w08): freeze of the
+    appchain submitted; update of its service pending; logout of the service submitted (locks the update; a
+    logouting service is not pausable); the freeze approved; the LOCKED update withdrawn: governance rejects it
+    against the object as it is, "reject" fires from logouting with the update's last status, the service is
+    available on the frozen appchain, requests from and to it are accepted.  With the withdrawal of paused
+    proposals refused, the history satisfies the property, and every history of at most 5 operations over
+    [casc_alphabet] from a world with one appchain and two services keeps every registered service of a
+    not-available appchain parked (bounded, by computation - not the general theorem). *)
+Theorem C16_withdraw_locked_refuted :
+  P_b h_withdraw_locked (model_trace (cfg_of_bits5 false true false false true) h_withdraw_locked) = false.
+Proof. exact withdraw_locked_refuted. Qed.
+Print Assumptions C16_withdraw_locked_refuted.
+Theorem C16_withdraw_locked_fixed :
+  P_b h_withdraw_locked (model_trace (cfg_of_bits5 false true false false false) h_withdraw_locked) = true.
+Proof. exact withdraw_locked_fixed. Qed.
+Theorem C16_cascade_bounded :
+  casc_dfs (cfg_of_bits5 false true false false false) 5 (casc_start (cfg_of_bits5 false true false false false)) [] = None.
+Proof. exact cascade_bounded. Qed.
+Print Assumptions C16_cascade_bounded.
+Theorem C16_cascade_bounded_refuted :
+  casc_dfs (cfg_of_bits5 false true false false true) 5 (casc_start (cfg_of_bits5 false true false false true)) []
+  = Some [OChainOp 1 1; OSvcOp 0 10 []; OSvcOp 3 10 []; OConclude 1 true; OWithdraw 1]%N.
+Proof. exact cascade_bounded_refuted. Qed.
+
 (** the manager is told "approve", "reject" or - when the rejected / withdrawn proposal had locked a lower-priority
     one - the event name of the RESTORED proposal; the follow-up of a not-approved service logout (re-pause the
     service of an unusable appchain) must run for all of them but "approve" *)
